@@ -306,7 +306,7 @@ class C02:
             "non-power-of-two block/piece count) or is empty or exactly one piece; distinct by (creator, set of "
             "per-file (block-count class, piece-count class, short-last-block), pl exponent)")
     required = ("roots_compared", "layers_compared", "rule_short_last_block", "rule_short_last_piece",
-                "rule_piece_count_not_pow2", "rule_small_file_pow2_pad", "empty_leaves")
+                "rule_piece_count_not_pow2", "rule_small_file_pow2_pad", "empty_leaves", "cases_with_directory_alias_link")
     assumptions = ("ref/hashing.py formulations A and B both implement BEP 52 (they must agree on every file)",)
 
     @staticmethod
